@@ -143,6 +143,26 @@ def _refers(n, name):
     return isinstance(n, dict) and n.get("k") == "path" and n["s"] == name
 
 
+def _variant_literal(body, e, variant):
+    """`e` is a local bound to `match <expr> { Variant{..} => "lit", .., _ => "lit" }`: the literal chosen for `variant`"""
+    e = sir.strip_ref(e)
+    if not (e.get("k") == "path" and len(e["segs"]) == 1) or variant is None:
+        return None
+    for st in sir.walk(body):
+        if st.get("k") == "local" and st["pat"].get("name") == e["segs"][0] and st.get("init") is not None and st["init"].get("k") == "match":
+            default = None
+            for a in st["init"]["arms"]:
+                b = a["body"]
+                if not (b.get("k") == "lit" and b.get("t") == "str"):
+                    return None
+                if a["pat"].get("k") == "p_wild":
+                    default = b["v"]
+                elif variant in sir.pat_variants(a["pat"]):
+                    return b["v"]
+            return default
+    return None
+
+
 INDEX = None  # set by the harness: the crate index, used to look through private helpers
 
 
@@ -189,7 +209,7 @@ def _helper_events(g, pn):
     return ev
 
 
-def arm_events(body, names):
+def arm_events(body, names, variant=None):
     """Source-order events of an arm: ('child', binding, level, via) for calls that generate/print a child with an
     explicit ExpressionLevel, ('lit', text) for literal text written. `names` = binding names of the child fields."""
     ev = []
@@ -215,11 +235,20 @@ def arm_events(body, names):
                     if p[0] == "lit":
                         ev.append(("lit", p[1], tgt))
                     else:
-                        ev.append(("hole", sir.expr_str(p[1]), tgt))
+                        vl = _variant_literal(body, p[1], variant) if isinstance(p[1], dict) else None
+                        if vl is not None:
+                            ev.append(("lit", vl, tgt))
+                        else:
+                            ev.append(("hole", sir.expr_str(p[1]), tgt))
                 continue
             if n["m"] in ("write_token", "write_str") and n["args"] and n["args"][0].get("k") == "lit" and n["args"][0].get("t") == "str":
                 ev.append(("lit", n["args"][0]["v"], sir.expr_str(sir.strip_ref(n["recv"]))))
                 continue
+            if n["m"] in ("write_token", "write_str") and n["args"]:
+                vl = _variant_literal(body, n["args"][0], variant)
+                if vl is not None:
+                    ev.append(("lit", vl, sir.expr_str(sir.strip_ref(n["recv"]))))
+                    continue
         elif k == "call":
             lvl = _level_arg(n["args"])
             if not lvl and INDEX is not None:
